@@ -32,6 +32,10 @@ def predicate_extractor(
             message=f"Parsing error at line {err.line}, column {err.column}. "
             f"'{err}' in '{predicates}'",
         )
+    except Exception as err:
+        return result.PermFail(
+            message=f"Error compiling conditions '{predicates}': {err!r}",
+        )
 
     program.logger.setLevel(logging.WARNING)
     return program
